@@ -1116,8 +1116,7 @@ Section Refinement.
   Proof. intros. split; cbn; auto. intros ? ? ? []. Qed.
 End Refinement.
 
-(* finding FWE2 in the model of the code *)
-Theorem fwe2_witness : exists (fd : fdesc) (c : ocell), opq_has fd c = true /\ opq_which_synthetic fd c = false.
-Proof.
-  exists (mkF 1 (KMsg O) COpt None false false false), (OCMsgPtr (Some msg_empty)). split; reflexivity.
-Qed.
+(* WhichOneof of a synthetic oneof (repaired code) reports the member exactly when it is populated *)
+Theorem opq_which_synthetic_correct : forall (fd : fdesc) (c : ocell),
+  opq_which_synthetic fd c = negb (refl_is_nil (opq_vals fd c)).
+Proof. intros. unfold opq_which_synthetic. apply opq_has_vals. Qed.
